@@ -25,7 +25,7 @@ LEVEL_NOTE = ('trusted: CPython tokenize/ast; the target node is addressed by de
 RULE = ('enum: case = (program, gap, replacement); kept iff ast.parse(new) has the same structure; non-trivial = distinct '
         'cases whose source changed; states = distinct sources before/after; traces = executions compared with ast.parse')
 ASSUMPTIONS = ['Module-rooted trees']
-BOUNDS = {'quick': '58 programs, all gaps, 16 replacements, depth 1; depth 2 on 12 programs with 5 replacements',
+BOUNDS = {'quick': '66 programs (incl. self-documenting f-strings, multi-byte multi-line gaps), all gaps, 16 replacements, depth 1; depth 2 on 12 programs with 5 replacements',
           'thorough': '52 programs, all gaps and all interior positions of multi-char gaps, depth 2 on all programs'}
 
 EXTRA = [
